@@ -212,6 +212,8 @@ def St.burst (s : St) (calls : List String) : St × String :=
   host <id> <addr> <dc> <rack> <tokens|->          define a HostInfo object (state UP)
   hostp <id> <hostid> <addr> <port> <dc> <rack> <tokens|->   the same with an explicit host id and native port
   add|remove|hup|hdown <id>                        AddHost / RemoveHost / HostUp / HostDown → snapshot of the lists
+  flap <id> <trials> <pickers> <updown|remadd>     SPEC-BACKED: Picks concurrent with HostUp / AddHost / RemoveHost of the host,
+                                                   quiescent drain after every trial → ok
   kstab <ks> none|empty|<tok>:<ids> ...            the table the policy holds for a NetworkTopologyStrategy keyspace (observed)
   setpart                                          SetPartitioner(OrderedPartitioner) after reset (late partitioner)
   islocal <id>                                     IsLocal(host) [HostTier/MaxHostTier for a HostTierer]
@@ -251,6 +253,22 @@ def step (s : St) (ws : List String) : St × String :=
     -- the keyspace is unknown and its table arrives as `kstab` lines
     let m : Option (Option Nat) := if v == "none" || v.startsWith "nts" then none else if v == "local" then some none else some (some (nat v))
     (bump { s with t := s.t.setMeta (nat ks) m }, "ok")
+  | ["flap", id, ts, ks, mode] =>
+    -- (round 2) SPEC-BACKED: <ts> trials of: a quiet preparing call about the host, then the opposite call CONCURRENT with
+    -- <ks> Picks, then a quiescent full drain that must offer exactly the hosts of the history. A Pick reads a snapshot
+    -- of the lists and writes nothing but the rotation counter (`C11_picks_write_no_lists`): at quiescence the lists are
+    -- what the notifier calls alone leave - the host is listed again, at the end of its tier; the counter has moved on by
+    -- one per Pick (<ks> + the drain, per trial). The model's answer is `ok`.
+    match s.host? (nat id) with
+    | none => (s, "bad-op")
+    | some h =>
+      let T := nat ts
+      let K := nat ks
+      if s.alias || T < 1 || T > 100000 || K < 1 || K > 32 || (mode != "updown" && mode != "remadd") then (s, "bad-op") else
+      let s1 := if mode == "updown" then (s.call "hdown" h).call "hup" h else (s.call "remove" h).call "add" h
+      let t' : TA := { s1.t with pol := s1.t.pol.setCtr (s1.t.pol.ctr + T * (K + 1)) }
+      (bump { s1 with t := t', down := if mode == "updown" then s1.down.filter (· != h.id) else s1.down,
+                      taint := if mode == "remadd" then s1.taint.filter (· != h.id) else s1.taint }, "ok")
   | "kstab" :: ks :: tab =>
     if !s.isTA || tab.isEmpty then (s, "bad-op") else
     let k := nat ks
